@@ -549,6 +549,11 @@ func (a *c18) passFlag() {
 		}
 		sort.Slice(us, func(i, j int) bool { return c.P.PosLess(c.P.Decl(us[i]).Pos(), c.P.Decl(us[j]).Pos()) })
 		for _, f := range us {
+			// the spawning function's own accesses are judged by the join analysis below, not by
+			// the lock set: it touches the flag while no worker runs
+			if f == a.extract && !a.worker[f] {
+				continue
+			}
 			a.locksetWalkFlag(c.P.Decl(f).Body, flag.obj, onWrite)
 		}
 	} else {
@@ -979,6 +984,21 @@ func (a *c18) r3() {
 		})
 		return
 	}
+	// which result of a producer carries the request (the bool result; the last one when several)
+	boolIdx := func(fn *types.Func) int {
+		sig := fn.Type().(*types.Signature)
+		idx := -1
+		for i := 0; i < sig.Results().Len(); i++ {
+			if b, ok := sig.Results().At(i).Type().Underlying().(*types.Basic); ok && b.Kind() == types.Bool {
+				idx = i
+			}
+		}
+		return idx
+	}
+	prodIdx := map[*types.Func]int{}
+	for f := range producers {
+		prodIdx[f] = boolIdx(f)
+	}
 	checked := map[*types.Func]bool{}
 	for changed := true; changed; {
 		changed = false
@@ -994,7 +1014,6 @@ func (a *c18) r3() {
 			calls := 0
 			for _, fn := range a.funcs {
 				fd := c.P.Decl(fn)
-				sc := newFnScope(a.info, fd.Body)
 				ast.Inspect(fd.Body, func(nd ast.Node) bool {
 					call, ok := nd.(*ast.CallExpr)
 					if !ok || callee(a.info, call) != prod {
@@ -1002,42 +1021,31 @@ func (a *c18) r3() {
 					}
 					calls++
 					cons := fmt.Sprintf("%s#uses(%s)", c.P.FuncName(fn), prod.Name())
-					path := enclosing(fd.Body, call)
-					used, relays := false, false
-					if len(path) >= 2 {
-						switch par := path[len(path)-2].(type) {
-						case *ast.IfStmt:
-							if unparen(par.Cond) == ast.Expr(call) {
-								used, relays = setsFlag(par.Body, fd)
-							}
-						case *ast.ReturnStmt:
-							if returnsBool(fn) {
-								used, relays = true, true
-							}
-						case *ast.AssignStmt:
-							// x = prod(...); later `if x { … }` or x is the function's own bool result
-							if len(par.Lhs) >= 1 {
-								xo := objOf(a.info, par.Lhs[len(par.Lhs)-1])
-								if xo != nil && boolResult(fd, xo) {
-									used, relays = true, true
-								}
-								if xo != nil && !used {
-									ast.Inspect(fd.Body, func(k ast.Node) bool {
-										if is, ok := k.(*ast.IfStmt); ok && objOf(a.info, is.Cond) == xo && is.Pos() > par.Pos() {
-											if s2, o2 := setsFlag(is.Body, fd); s2 {
-												used, relays = true, o2
-											}
-										}
-										return true
-									})
+					// where the request goes: the caller's own bool result (the caller relays it and is a
+					// producer in turn), the condition of a pass loop, or a bool field (the shared flag)
+					bf := a.followBool(fd, map[*ast.CallExpr]int{call: prodIdx[prod]}, nil)
+					own := -1
+					for i := range bf.ownIdx {
+						if i == boolIdx(fn) {
+							own = i
+						}
+					}
+					// `if prod(…) { … }` directly
+					if path := enclosing(fd.Body, call); len(path) >= 2 {
+						if is, ok := path[len(path)-2].(*ast.IfStmt); ok && unparen(is.Cond) == ast.Expr(call) {
+							if s2, o2 := setsFlag(is.Body, fd); s2 {
+								bf.field = true
+								if o2 && own < 0 {
+									own = boolIdx(fn)
 								}
 							}
 						}
 					}
-					_ = sc
+					used := own >= 0 || bf.loopCond || bf.field
 					if used {
-						if relays && returnsBool(fn) && !producers[fn] {
+						if own >= 0 && !producers[fn] {
 							producers[fn] = true
+							prodIdx[fn] = own
 							changed = true
 						}
 						c.OK("C18.R3", cons, call.Pos(), "the another-pass result is turned into a pass request")
@@ -1295,7 +1303,9 @@ func (a *c18) passBarrier() {
 		return true
 	})
 	cons := name + "#pass-barrier"
-	if loop == nil {
+	if loop == nil && a.onePassPerCall(flag, cons) {
+		// reported there
+	} else if loop == nil {
 		c.Unk("C18.R6", cons, efd.Pos(), "no loop conditioned on the another-pass flag `%s` found", flag.name())
 	} else {
 		// workers spawned before the loop keep running across iterations
@@ -1414,6 +1424,112 @@ func (a *c18) passBarrier() {
 		}
 	}
 }
+
+// onePassPerCall: the spawning function has no pass loop of its own — it runs one pass per call and
+// hands the flag to its caller.  Then every successful return (nil error, or no error result) of
+// the spawning function must come after Wait has joined the workers, the value returned must be
+// the flag, and a caller must loop on it.
+func (a *c18) onePassPerCall(flag *c18flag, cons string) bool {
+	c := a.c
+	efd := c.P.Decl(a.extract)
+	if boolIdxOf(a.extract) < 0 {
+		return false
+	}
+	// the flag's value reaches the spawner's bool result
+	seed := map[types.Object]bool{flag.obj: true}
+	bf := a.followBool(efd, nil, seed)
+	if !bf.ownIdx[boolIdxOf(a.extract)] {
+		return false
+	}
+	// a caller loops on that result
+	var loopIn *types.Func
+	var loop *ast.ForStmt
+	for _, fn := range a.funcs {
+		fd := c.P.Decl(fn)
+		ast.Inspect(fd.Body, func(n ast.Node) bool {
+			call, ok := n.(*ast.CallExpr)
+			if !ok || callee(a.info, call) != a.extract || loop != nil {
+				return true
+			}
+			cf := a.followBool(fd, map[*ast.CallExpr]int{call: boolIdxOf(a.extract)}, nil)
+			if cf.loopCond && cf.loop != nil && cf.loop.Pos() <= call.Pos() && call.End() <= cf.loop.End() {
+				loopIn, loop = fn, cf.loop
+			}
+			return true
+		})
+	}
+	if loop == nil {
+		return false
+	}
+	// joined at every successful return
+	ok := true
+	var where token.Pos
+	cl := &FactsClient{}
+	cl.OnStmt = func(n ast.Node, s Facts) Facts {
+		var scope ast.Node = n
+		if rs, isR := n.(*ast.RangeStmt); isR {
+			scope = rs.X
+		}
+		if a.isGroupCall(scope, "Go") {
+			delete(s, "joined")
+		}
+		if a.isGroupCall(scope, "Wait") {
+			s["joined"] = true
+		}
+		return s
+	}
+	cl.OnBranch = func(cond ast.Expr, truth bool, s Facts) Facts {
+		if a.isGroupCall(cond, "Wait") {
+			s["joined"] = true
+		}
+		return s
+	}
+	cl.OnReturn = func(r *ast.ReturnStmt, s Facts) {
+		if s["joined"] {
+			return
+		}
+		// a return that reports an error ends the extraction; only successful returns hand the
+		// flag to the pass loop
+		if r != nil && len(r.Results) > 0 {
+			last := r.Results[len(r.Results)-1]
+			if t := a.info.TypeOf(last); t != nil && types.Identical(t, types.Universe.Lookup("error").Type()) && !isNilConst(a.info, last) {
+				return
+			}
+			if id, isId := unparen(last).(*ast.Ident); isId && id.Name != "nil" {
+				if t := a.info.TypeOf(last); t != nil && isErrorType(t) {
+					return
+				}
+			}
+		}
+		ok = false
+		if r != nil {
+			where = r.Pos()
+		}
+	}
+	fl := &Flow[Facts]{C: cl, Info: a.info}
+	fl.Run(efd.Body, Facts{"joined": true})
+	switch {
+	case len(fl.Unsupported) > 0:
+		c.Unk("C18.R6", cons, fl.Unsupported[0].Pos(), "unsupported control flow in the spawning function")
+	case ok:
+		c.OK("C18.R6", cons, loop.Pos(), "one pass per call of %s: every successful return comes after Wait has joined the workers, the flag `%s` is what it returns, and %s loops on that result", a.extract.Name(), flag.name(), c.P.FuncName(loopIn))
+	default:
+		c.Unk("C18.R6", cons, where, "%s can return successfully — and hand `%s` to the pass loop — while workers that may still set it are running (they are not joined by Wait before the return); whether some other hand-shake makes every worker's last store visible first is not decided", a.extract.Name(), flag.name())
+	}
+	return true
+}
+
+func boolIdxOf(fn *types.Func) int {
+	sig := fn.Type().(*types.Signature)
+	idx := -1
+	for i := 0; i < sig.Results().Len(); i++ {
+		if b, ok := sig.Results().At(i).Type().Underlying().(*types.Basic); ok && b.Kind() == types.Bool {
+			idx = i
+		}
+	}
+	return idx
+}
+
 
 // reachesProcess: f (a package function that is not itself a process function) calls one,
 // directly or through further helpers.
